@@ -66,15 +66,29 @@ func verifBigResponse(req *dns.Msg, target int) *dns.Msg {
 // DNS message, also when the response is close to the limit and the client asked for
 // padding (padding is added after truncation).
 //
-//verif:harness name=H08d-stream-boundary tier=quick,thorough bounds="DoT (tcpResponseWriter) and DoH wire-format (writeResponse) writers; concrete handler responses of 65535-k bytes for k in {0, 1, 300, 466, 467, 468, 2000} made of 255-byte TXT records; client OPT with the padding option; math/rand.Intn at the extremes of its range" reach=sent,refused maxpaths=2000
+//verif:harness name=H08d-stream-boundary tier=quick,thorough bounds="DoT (tcpResponseWriter) and DoH wire-format (writeResponse) writers; concrete handler responses of 65535-k bytes for k in {0..20, 300, 466, 467, 468, 2000} (0..20 with the keep-alive option alone) made of 255-byte TXT records; client OPT with the padding option, the keep-alive option or both; math/rand.Intn at the extremes of its range" reach=sent,refused maxpaths=20000
 //verif:assume Pack output length equals miekg's Len (checked by the assertion on the bytes actually written)
 func VerifC08StreamBoundary() {
-	k := []int{0, 1, 300, 466, 467, 468, 2000}[verifChoice(7)]
+	ks := []int{0, 1, 300, 466, 467, 468, 2000, 2, 3, 4, 5, 6, 7, 8, 9, 10, 11, 12, 13, 14, 15, 16, 17, 18, 19, 20}
+	ki := verifChoice(len(ks))
+	k := ks[ki]
 	req := &dns.Msg{}
 	req.SetQuestion("example.org.", dns.TypeTXT)
 	req.SetEdns0(4096, false)
 	o := req.IsEdns0()
-	o.Option = append(o.Option, &dns.EDNS0_PADDING{Padding: make([]byte, 4)})
+	// what the client asks for on top of the answer: padding, keep-alive, or both
+	// (both are added after truncation)
+	extras := verifChoice(3)
+	// the random padding length (1..31 bytes) must not decide between sent and
+	// refused, or the native replay could not follow: the fine sweep of sizes is done
+	// with the keep-alive option alone
+	verifAssume(extras == 1 || ki < 7)
+	if extras != 1 {
+		o.Option = append(o.Option, &dns.EDNS0_PADDING{Padding: make([]byte, 4)})
+	}
+	if extras != 0 {
+		o.Option = append(o.Option, &dns.EDNS0_TCP_KEEPALIVE{Code: dns.EDNS0TCPKEEPALIVE})
+	}
 	resp := verifBigResponse(req, 65535-k)
 	verifAssume(resp.Len() == 65535-k)
 
